@@ -58,3 +58,9 @@ Example repaired_on_witnesses :
   parse_contract_methods (fun _ _ => Ok tt) boc_no_roots = Err EFrame /\
   get_transactions (fun _ _ => Ok tt) 0 boc_one_root = Err EFrame.
 Proof. vm_compute. repeat split. Qed.
+
+(** a design that recognises tcp.pong by its constructor id alone (without the
+    payload length) lets a 4-byte framed packet panic the reader goroutine *)
+Theorem conn_reader_pong_by_magic_only_refuted :
+  exists payload, length payload = 4%nat /\ conn_reader_step_gen false payload = Panic PIndex.
+Proof. exists [0x03; 0xfb; 0x69; 0xdc]. split; [reflexivity | vm_compute; reflexivity]. Qed.
